@@ -1940,6 +1940,123 @@ impl Ctx {
 }
 
 // ---------------------------------------------------------------------------------------------
+// argument unpacking grid: `|(pattern)|` with an ellipsis leading / trailing / absent, named /
+// unnamed, the remaining slots drawn from every sub-pattern kind (id, `_`, typed id, nested tuple,
+// nested map pattern) at every position, called with containers shorter / equal / longer than the
+// pattern. Oracle = the match model on the same pattern: where the pattern matches, the bindings
+// are the same (slot j = element j with a trailing ellipsis, element size − n + j after a leading
+// one); where it does not, the call raises (the guide: "If the number of elements doesn't match
+// then an error will be thrown").
+
+fn arg_slot(kind: usize, next: &mut usize) -> P {
+    let mut v = || {
+        let x = (*next).min(3);
+        *next += 1;
+        x
+    };
+    match kind {
+        0 => P::Id(v(), None),
+        1 => P::Wild(None),
+        2 => P::Id(v(), Some(Ty("Number", false))),
+        3 => {
+            let a = v();
+            let b = v();
+            P::Seq(vec![P::Id(a, None), P::Id(b, None)], Rest::None, vec![])
+        }
+        _ => P::Map(vec![Ent { key: "a".into(), bind: Bind::As(v()), ty: None }], None),
+    }
+}
+
+fn arg_grid_patterns() -> Vec<P> {
+    let mut out = vec![];
+    for n in 1..=2usize {
+        for code in 0..5usize.pow(n as u32) {
+            for form in 0..5 {
+                // 0 no ellipsis, 1 `...` last, 2 `rest...` last, 3 `...` first, 4 `first...` first
+                let mut next = 0usize;
+                let mut c = code;
+                let slots: Vec<P> = (0..n)
+                    .map(|_| {
+                        let k = c % 5;
+                        c /= 5;
+                        arg_slot(k, &mut next)
+                    })
+                    .collect();
+                out.push(match form {
+                    0 => P::Seq(slots, Rest::None, vec![]),
+                    1 => P::Seq(slots, Rest::Anon, vec![]),
+                    2 => P::Seq(slots, Rest::Named(4), vec![]),
+                    3 => P::Seq(vec![], Rest::Anon, slots),
+                    _ => P::Seq(vec![], Rest::Named(4), slots),
+                });
+            }
+        }
+    }
+    out
+}
+
+impl Ctx {
+    fn run_arg_grid(&mut self, pat: &P, subjects: &[V]) {
+        let mut vars = vec![];
+        pat.vars(&mut vars);
+        vars.sort();
+        vars.dedup();
+        let ret = match vars.len() {
+            0 => "('ok',)".to_string(),
+            _ => format!("('ok', {})", vars.iter().map(|x| var_name(*x)).collect::<Vec<_>>().join(", ")),
+        };
+        let script = format!("f = |{}|\n  {}\nh = |s|\n  try\n    f s\n  catch err\n    ('E', \"{{err}}\")\nh\n", pat.koto(), ret);
+        let mut koto = Koto::default();
+        let h = match koto.compile_and_run(script.as_str()) {
+            Ok(h) => h,
+            Err(e) => {
+                self.compile_fail += 1;
+                if self.compile_fail <= 3 {
+                    self.rep.violation("D", "C03:compile", json!({"program": script, "error": e.to_string(), "origin": "arg-grid"}));
+                }
+                return;
+            }
+        };
+        let arms = format!("arms {} e (arm ((one {})) -)", VARS.len(), pat.sexp());
+        assert!(self.drv.ask(&arms).starts_with("ok"));
+        let reqs: Vec<String> = subjects.iter().map(|v| format!("s {}", v.canon())).collect();
+        let resps = self.drv.batch(&reqs);
+        for (v, resp) in subjects.iter().zip(resps.iter()) {
+            let code = resp.split(" ; ").next().unwrap_or("");
+            let want = if code.starts_with("A0 ") {
+                let regs = split_vals(code.split(" T:").next().unwrap());
+                format!("(t sx6f6b{})", vars.iter().map(|x| format!(" {}", regs[1 + *x])).collect::<String>())
+            } else {
+                "ERROR".to_string()
+            };
+            let arg = self.imp.value(v);
+            let got = match koto.call_function(h.clone(), &[arg][..]) {
+                Ok(r) => {
+                    let c = kvh::canon::value(&r);
+                    if c.starts_with("(t sx45 ") { "ERROR".to_string() } else { c }
+                }
+                Err(e) => format!("E:host:{}", e),
+            };
+            self.rep.case(&format!("arg {} | {}", pat.sexp(), v.canon()), true);
+            self.rep.bump("origin=arg-grid");
+            self.rep.bump(&format!("arg_grid_outcome={}", if want == "ERROR" { "raises" } else { "binds" }));
+            if got != want {
+                self.k_fail += 1;
+                if self.k_fail <= 6 {
+                    self.rep.violation(
+                        "D",
+                        "C03:arg-unpack",
+                        json!({"program": format!("{}\n# call: h({})", script, v.koto()), "pattern": pat.koto(), "subject": v.canon(),
+                               "impl": got, "model": want,
+                               "note": "argument unpacking vs the pattern model: slot j is element j with a trailing ellipsis and element size-n+j after a leading one; a container that does not fit raises"}),
+                    );
+                }
+            }
+        }
+    }
+}
+
+// ---------------------------------------------------------------------------------------------
 // corpus scripts: `#: expected output line`
 
 #[derive(Clone, Default)]
@@ -2180,6 +2297,31 @@ fn main() {
             cx.run_chain(pr, &chain_subjects);
         }
         cx.rep.extra.insert("chain_producers".into(), json!(prs.iter().map(|p| p.name).collect::<Vec<_>>()));
+    }
+
+    // --- 2e. argument-unpacking grid
+    {
+        let at = vec![V::I(0), V::S("a".into()), V::T(vec![V::I(1), V::I(2)]), V::M(vec![("a".into(), V::I(5))])];
+        let mut seqs: Vec<Vec<V>> = vec![vec![]];
+        let mut prev: Vec<Vec<V>> = vec![vec![]];
+        for _ in 0..4 {
+            let mut nextv = vec![];
+            for p in &prev {
+                for a in &at {
+                    let mut q = p.clone();
+                    q.push(a.clone());
+                    nextv.push(q);
+                }
+            }
+            seqs.extend(nextv.iter().cloned());
+            prev = nextv;
+        }
+        let subjects: Vec<V> = seqs.iter().flat_map(|x| vec![V::T(x.clone()), V::L(x.clone())]).collect();
+        let pats = arg_grid_patterns();
+        for p in &pats {
+            cx.run_arg_grid(p, &subjects);
+        }
+        cx.rep.extra.insert("arg_grid".into(), json!({"patterns": pats.len(), "subjects": subjects.len()}));
     }
 
     // --- 3. random pattern sets
